@@ -51,9 +51,16 @@ def engine_selfcheck(R, prop):
 def run_quick(prop, repo, seed):
     t0 = time.time()
     fd = extract.facts_dir(repo, 'all')
-    F, roles, R = engine.run_all(fd)
+    F, roles, R, vinfo = engine.run_best(fd)
     sc = engine_selfcheck(R, prop)
-    return evaluate(prop, F, roles, R, 'quick', seed, t0, extra_cov={'configurations': ['workspace --all-features (lib targets)'], 'engine_selfcheck': sc})
+    return evaluate(prop, F, roles, R, 'quick', seed, t0, extra_cov={'configurations': ['workspace --all-features (lib targets)'], 'engine_selfcheck': sc, 'views': view_cov(vinfo, prop)})
+
+
+def view_cov(vinfo, prop):
+    return {'analysed': vinfo['views'], 'reported': vinfo['chosen'].get(prop, 'raw'),
+            'helpers_inlined_in_normalised_view': vinfo.get('inlined_helpers', {}),
+            'rule': 'raw = the functions as written; helpers-inlined = the same program with non-pub helper functions that the pinned tree does not have inlined into their callers (only built when the raw view has a failing obligation); '
+                    'the view with the fewest failing obligations is reported, the raw view on a tie', **({'flatten_error': vinfo['flatten_error']} if 'flatten_error' in vinfo else {})}
 
 
 def evaluate(prop, F, roles, R, tier, seed, t0, extra_cov=None, extra_violations=None):
